@@ -85,14 +85,19 @@ func cmdCheck(args []string) int {
 		timeout = 60 * time.Second
 	}
 	var fvs []*FuncVer
+	var specErrors []string
 	for _, b := range blocks {
 		if *only != "" && !strings.Contains(b.Flags["resolved"], *only) {
 			continue
 		}
 		fv, err := eng.verifyFunc(b, *prop)
 		if err != nil {
+			// the contract can no longer be evaluated against this code (e.g. it names a local or a
+			// loop that is gone): none of the function's obligations is generated, so the listed
+			// ones are reported as violated below
 			fmt.Fprintln(os.Stderr, "gocv:", err)
-			return 2
+			specErrors = append(specErrors, err.Error())
+			continue
 		}
 		fvs = append(fvs, fv)
 	}
@@ -156,6 +161,10 @@ func cmdCheck(args []string) int {
 			}
 			r := solve2(text, j.fv.smtGround(j.q), to, thorough && !j.ob.Cover)
 			j.q.Result, j.q.Solver, j.q.Ms, j.q.Model, j.q.SMT = r.result, r.solver, r.ms, r.model, text
+			if r.result != "unsat" && r.result != "sat" && r.groundSat {
+				j.q.Candidate = true
+				j.q.Model = "(candidate model of the instantiated query; quantified assumptions dropped)\n" + r.groundModel
+			}
 			if os.Getenv("GOCV_DEBUG") != "" {
 				fmt.Fprintf(os.Stderr, "query %s.%d: %s by %s in %dms all=%v\n", j.ob.Name, j.n, r.result, r.solver, r.ms, r.all)
 			}
@@ -215,9 +224,12 @@ func cmdCheck(args []string) int {
 							r.failQuery = q
 						}
 					default:
-						if r.Status == "discharged" {
+						if r.Status == "discharged" || (r.Status == "undecided" && q.Candidate && !r.failQuery.Candidate) {
 							r.Status = "undecided"
 							r.Detail = q.Result
+							if q.Candidate {
+								r.Detail += " (candidate counterexample)"
+							}
 							r.failQuery = q
 						}
 					}
@@ -287,7 +299,11 @@ func cmdCheck(args []string) int {
 			// automatically generated safety obligations (bounds, nil, ...) and call-site
 			// obligations vanish when the expression or call is removed: not a violation
 		case !ok:
-			report(nil, name, "obligation is no longer generated (the function, loop, call site or clause it is keyed on disappeared)")
+			why := "obligation is no longer generated (the function, loop, call site or clause it is keyed on disappeared)"
+			if len(specErrors) > 0 {
+				why += "; contract evaluation errors: " + trunc(strings.Join(specErrors, "; "), 400)
+			}
+			report(nil, name, why)
 		case r.Status == "discharged" || r.Status == "covered":
 		default:
 			report(r, name, "previously discharged obligation is now "+r.Status+" "+r.Detail)
@@ -299,6 +315,14 @@ func cmdCheck(args []string) int {
 		}
 		if r.Status == "failed" || r.Status == "vacuous" {
 			report(r, r.Name, "new obligation is "+r.Status)
+		} else if r.Status == "undecided" && r.failQuery != nil && r.failQuery.Candidate && isKnown(r.Name) == nil {
+			// not refuted and a candidate counterexample exists: search for a failing input on the real code
+			path, replayed := writeReplay(replayDir, *prop, r.Name, "new obligation is undecided with a candidate counterexample", r, *repo, *verif)
+			if replayed {
+				viols = append(viols, violation{r.Name, "new obligation is undecided and the replay reproduces a failure on the real code", path, false})
+			}
+		} else if r.Status == "undecided" && isKnown(r.Name) != nil {
+			report(r, r.Name, "known")
 		}
 	}
 	// bounded stand-ins (labelled bounded, never counted as proved)
@@ -364,6 +388,7 @@ func cmdCheck(args []string) int {
 			"per_obligation":           perObl,
 			"undecided_not_claimed":    undecided,
 			"incomplete_functions":     incompleteNotes,
+			"contract_errors":          specErrors,
 			"known_findings":           knownLines,
 			"bounded":                  bounded,
 			"samples":                  samples,
